@@ -758,7 +758,7 @@ func (vfs *MemFS) Remove(name string) (err error) {
 // it encounters. If the path does not exist, RemoveAll
 // returns nil (no error).
 // If there is an error, it will be of type *PathError.
-func (vfs *MemFS) RemoveAll(path string) error {
+func (vfs *MemFS) RemoveAll(path string) (err error) {
 	const op = "unlinkat"
 
 	if path == "" {
@@ -790,9 +790,25 @@ func (vfs *MemFS) RemoveAll(path string) error {
 		return &fs.PathError{Op: op, Path: path, Err: err}
 	}
 
+	// Deferred before the lock is taken, so that the call starts again after it is released.
+	again := false
+
+	defer func() {
+		if again {
+			err = vfs.RemoveAll(path)
+		}
+	}()
+
 	avfs.VerifBeforeLock(&parent.mu, true)
 	parent.mu.Lock()
 	defer parent.mu.Unlock()
+
+	if parent.children[pi.Part()] != child {
+		// The name was removed or given to another node since the path was resolved : resolve it again.
+		again = true
+
+		return nil
+	}
 
 	if c, ok := child.(*dirNode); ok {
 		avfs.VerifBeforeLock(&c.mu, false)
